@@ -188,7 +188,8 @@ def run(chk, replay):
     chosen = util.select(scenarios, cap, chk.rng)
     chk.exhaustive = False
     perms = [(0, 1, 2), (1, 2, 0), (2, 0, 1), (0, 2, 1), (1, 0, 2), (2, 1, 0)]
-    fsets = [["u", "aff"], ["all"], ["cst", "grid_level"], ["aff", "w", "grid_level"]]
+    # field lists in header order and NOT in header order (names must stay on their own samples)
+    fsets = [["u", "aff"], ["all"], ["cst", "grid_level"], ["aff", "w", "grid_level"], ["w", "u"], ["cst", "grid_level", "aff", "u"]]
     for i, sc in enumerate(chosen):
         axes = perms[i % 6]
         serial = i % 2 == 0
